@@ -10,8 +10,8 @@ TB = ["TLC 1.8 (tla2tools)", "CPython ast (renderer cross-check)", "layer R oper
 
 CLAIMED = {
  "C01": dict(level=MC, ref="DESIGN.md section 4 C01",
-   text="TLC enumerates every (layout, registration order) of the Layouts table, checks the promised resolution (layer R) against the repaired implementation model on all of them, and every case is replayed on the real library at every column of every usage token; the real answer must equal layer R or match a listed known finding exactly as the implementation model predicts it.",
-   note="Bounded to the layout universe of spec/Layouts.tla (3 conftest levels x 11 conftest kinds, same-file kinds, 5 extra definers, 6 usage kinds, <=3 (quick) / <=4 (thorough) definers, all orders). Layer R is not cross-validated against pytest (not installed).",
+   text="TLC enumerates every (layout, registration order) of the Layouts table, checks the promised resolution (layer R) against the repaired implementation model on all of them, and every case is replayed on the real library at every column of every usage token; the real answer must equal layer R or match a listed known finding exactly as the implementation model predicts it. The same two layers are evaluated by TLC on seeded random workspaces (RandomLayouts.tla) and replayed the same way.",
+   note="Bounded to the layout universe of spec/Layouts.tla (3 conftest levels x 11 conftest kinds, same-file kinds, 5 extra definers, 6 usage kinds, <=3 (quick) / <=4 (thorough) definers, all orders). Layer R is not cross-validated against pytest (not installed). Random workspaces: 1 200 x 2 orders (quick), 20 000 x 3 (thorough), inside the judged universe of DESIGN Appendix A.3.",
    technique="TLA+ case table (TLC) + spec-to-implementation replay with layer-R oracle"),
  "C02": dict(level=MC, ref="DESIGN.md section 4 C02",
    text="TLC enumerates override chains over three conftest levels, same file, plugin and third-party (Layouts_chain.cfg); each is replayed on the real library, every column of every overriding def line is probed for go-to-definition and references, every test at depth 0..2 must bind to the innermost override.",
